@@ -127,6 +127,11 @@ func AcquireBodyStream(b *bytebufferpool.ByteBuffer, r network.Reader, t *protoc
 }
 
 func (rs *bodyStream) Read(p []byte) (int, error) {
+	if rs.readErr != nil {
+		// after a failed read the position in the body framing is unknown: a handler that reads again
+		// gets the same error, not bytes or an end-of-stream from the wrong place
+		return 0, rs.readErr
+	}
 	n, err := rs.read(p)
 	if err != nil && err != io.EOF && rs.readErr == nil {
 		rs.readErr = err
